@@ -302,8 +302,25 @@ def check_C13(run):
     m = gen_schedules(run, svc_gen_cfg(10, clients='{"k1", "k2", "k3"}', ifaces='{"i1", "i2"}', rounds=2, timeouts=0, binds=2, macro=True), timeout=900)
     msel = [x for x in m if '"op":"Register"' in x and '"op":"Probe"' in x]
     two = [x for x in msel if x.count('"op":"Probe"') >= 2 and x.count('"op":"Serve"') >= 2]
+    # ... and connections that stay open: Hold / Ask (introspect again, also while draining after Shutdown) / Drop
+    h = gen_schedules(run, svc_gen_cfg(10, clients='{"k1", "k2"}', ifaces='{"i1"}', rounds=2, timeouts=0, binds=2, macro=True), timeout=900)
+
+    def ops_of(x):
+        return [e["op"] for e in json.loads(x)]
+
+    def drained_then_registered(x):
+        o = ops_of(x)
+        try:
+            hh = o.index("Hold"); sd = o.index("Shutdown", hh); a = o.index("Ask", sd); rg = o.index("Register", a); s2 = o.index("Serve", rg)
+            return "Probe" in o[s2:] or "Ask" in o[s2:]
+        except ValueError:
+            return False
+    hsel = [x for x in h if '"op":"Ask"' in x and '"op":"Register"' in x]
+    hcore = [x for x in hsel if drained_then_registered(x)]
     run.extra["schedule_space"] = {"len8_fine_with_register_and_introspection": len(sel), "len10_macro_with_register_and_probe": len(msel),
-                                   "len10_macro_two_rounds_two_probes": len(two)}
+                                   "len10_macro_two_rounds_two_probes": len(two), "len10_macro_held_connections_with_register": len(hsel),
+                                   "len10_macro_introspection_while_draining_then_register_then_round_two": len(hcore)}
+    hsel = hcore + run.rng.sample(hsel, min(len(hsel), 3000 if thorough else 300))
     if not thorough:
         sel = run.rng.sample(sel, min(len(sel), 500))
         msel = run.rng.sample(two, min(len(two), 350)) + run.rng.sample(msel, min(len(msel), 350))
@@ -311,7 +328,7 @@ def check_C13(run):
         sel = run.rng.sample(sel, min(len(sel), 6000))
         msel = two + run.rng.sample(msel, min(len(msel), 6000))
     nt = lambda c: any('"ev":"Introspect"' in l for l in c) and any('"res":"refused"' in l for l in c)
-    replay_validate(run, sel + msel, ["service"], "ServiceTrace", svc_trace_cfg(), "C13 registration histories with client-side introspection",
+    replay_validate(run, sel + msel + hsel, ["service"], "ServiceTrace", svc_trace_cfg(), "C13 registration histories with client-side introspection",
                     nontrivial=nt, classify=svc_classify("C13"), shards=16)
     # the built-in interface on the wire: every GetInfo / GetInterfaceDescription scenario of the Conn machine
     # (parameters absent, null, undecodable, empty name, unknown name, known name; plain / oneway / more; cut and uncut)
@@ -324,7 +341,7 @@ def check_C13(run):
     rs = [l for l in run.generate("RealClockGen", GEN_CFG, ["rc_scen.ndjson"])["rc_scen.ndjson"] if '"resolver"' in l]
     table_replay(run, rs, ["realclock"], "RealClock", TR_CFG, "C13 Resolver helpers against a resolver service (GetInfo, Resolve, self, unknown)", shards=1, nontrivial=lambda c: True)
     run.write_evidence("model_checking",
-        "histories = environment histories of spec/ServiceGen.tla: (a) fine-grained, up to 8 actions over {Register i1/i2 (duplicates, while serving, between rounds), Install, Serve, Connect, Deliver, Shutdown, End(introspect)}; (b) coarse, 10 actions over {Register, Install, Serve, Probe (= connect, accept, GetInfo + GetInterfaceDescription of every listed and of 8 candidate unlisted/refused names through the client helpers, close), Shutdown} covering two serving rounds; seeded samples; identity strings and description texts contain non-ASCII, <>&, U+2028 and an empty version; non-trivial = an introspection happened and at least one registration was refused",
+        "histories = environment histories of spec/ServiceGen.tla: (a) fine-grained, up to 8 actions over {Register i1/i2 (duplicates, while serving, between rounds), Install, Serve, Connect, Deliver, Shutdown, End(introspect)}; (b) coarse, 10 actions over {Register, Install, Serve, Probe (= connect, accept, GetInfo + GetInterfaceDescription of every listed and of 8 candidate unlisted/refused names through the client helpers, close), Shutdown} covering two serving rounds; (c) coarse with connections that stay open, 10 actions over the same plus {Hold, Ask (introspect again over the open connection, also while the service drains after Shutdown), Drop}; seeded samples; identity strings and description texts contain non-ASCII, <>&, U+2028 and an empty version; non-trivial = an introspection happened and at least one registration was refused",
         exhaustive=False,
         assumptions=["descriptions are compared byte for byte by the recorder and logged as tokens d:<name>",
                      "the window between Bind and the accept loop is explored by TLC only (registration while listening is forced at the gate 'parked in Accept')"])
